@@ -171,6 +171,20 @@ fn main() {
                 }
             }
         }
+        "ext-call" => {
+            if args.len() < 3 {
+                usage();
+            }
+            install_quiet_panic_hook();
+            let text = match args[2].strip_prefix('@') {
+                Some(path) => std::fs::read_to_string(path).unwrap_or_else(|_| usage()),
+                None => args[2].clone(),
+            };
+            let v: serde_json::Value = serde_json::from_str(&text).unwrap_or_else(|_| usage());
+            let spec = cverif::extcall::ExtSpec::from_json(&v).unwrap_or_else(|| usage());
+            let r = cverif::extcall::perform(&spec);
+            println!("{}", r.to_json());
+        }
         "merge-hashes" => {
             let mut set = std::collections::HashSet::new();
             for f in &args[2..] {
